@@ -292,10 +292,13 @@ AddCommit(a, cf, tk, n, S) ==
             /\ UNCHANGED <<cmode, readOnly, rwCount, checkpoint, reg, maxRev, signalled, monWait,
                            monNote, env, acked, nextW, calls>>
        ELSE
-        LET D   == IF cmode[a] = "NONE" /\ WOs(cmode) # {} /\ tk THEN WOs(cmode) ELSE {}
+        \* the second verifyReplicationFactor counts the members as they are (a WO replica
+        \* included) BEFORE addReplicaNoLock / canAdd could take a lower-revision WO replica over:
+        \* a full volume refuses the add and nothing is taken over
+        LET full == ("addNoSecondRFCheck" \notin Bug) /\
+                    Cardinality({x \in Addr : cmode[x] # "NONE"}) >= RF
+            D   == IF ~full /\ cmode[a] = "NONE" /\ WOs(cmode) # {} /\ tk THEN WOs(cmode) ELSE {}
             cm0 == Removed(cmode, D)
-            full == ("addNoSecondRFCheck" \notin Bug) /\
-                    Cardinality({x \in Addr : cm0[x] # "NONE"}) >= RF
             Ws  == {x \in Addr : cm0[x] \in {"RW", "WO"}}     \* snapshot goes to non-ERR backends
             \* RemainSnapshots has no answer when every attached backend is ERR
             noValid == {x \in Addr : cm0[x] # "NONE"} # {} /\ Ws = {}
